@@ -33,6 +33,7 @@ const (
 	AnnoMiddle       = "middle"
 	AnnoLast         = "last"
 	AnnoAfterKeyword = "after-keyword" // written after a keyword modifier: `public @Nullable String f()`
+	AnnoBoth         = "both"          // the method carries @Nullable and @CheckForNull
 )
 
 type Method struct {
@@ -48,10 +49,41 @@ type Method struct {
 	NullReturn  string // position class of `return null;` (NullNone = the method never returns the null literal)
 	NullNested  bool   // a `return null;` sits inside a loop / try / switch / else block
 	NullAnno    string // "", Nullable, CheckForNull
+	NullAnno2   string // the other of the two, when the method carries both
 	AnnoPos     string // where that annotation stands
 	NullCompare bool   // `return p == null;` — mentions the literal, returns a boolean
 	NullDecoy   bool   // the body uses the null literal outside return statements
 	Body        []string
+
+	// planted unqualified calls of methods of the same class (first lines of the body)
+	Calls         []PlantedCall
+	SameLineCalls int // number of source lines on which this method calls one callee two or three times
+}
+
+// PlantedCall is one call site `callee(p, flag, n)`; BodyLine is the index into Body of the line it stands on.
+type PlantedCall struct {
+	Callee   string
+	BodyLine int
+}
+
+// Reasons counts the independent grounds on which the method is nullable (null-returning paths count once
+// per `return null;` statement, each null annotation once).
+func (m *Method) Reasons() int {
+	n := 0
+	switch m.NullReturn {
+	case NullNone:
+	case NullBoth:
+		n += 2
+	default:
+		n++
+	}
+	if m.NullAnno != "" {
+		n++
+	}
+	if m.NullAnno2 != "" {
+		n++
+	}
+	return n
 }
 
 // Nullable is the statement's definition: returns the null literal on some path, or is annotated.
@@ -135,7 +167,8 @@ func Generate(r *run.Rand, o Opts) *Project {
 			noun := r.Pick(nouns)
 			switch c.Kind {
 			case KindUtil:
-				c.Name = noun + r.Pick([]string{"Util", "Utils"})
+				// a name may say Service as well: static helpers around a service are still a utility class
+				c.Name = r.Pick([]string{noun + "Util", noun + "Utils", noun + "Util", noun + "Utils", noun + "ServiceUtil", noun + "ServiceUtils", "ServiceUtils", "WebServiceUtil"})
 			case KindService:
 				c.Name = noun + r.Pick([]string{"Service", "ServiceImpl"})
 			case KindAbstract:
@@ -246,6 +279,7 @@ func (g *gen) fillClass(c *Class) {
 		g.fillMethod(c, m, static, abstract)
 		c.Methods = append(c.Methods, m)
 	}
+	g.plantCalls(c)
 	need := map[string]bool{}
 	for _, m := range c.Methods {
 		for _, h := range m.Head {
@@ -399,6 +433,16 @@ func (g *gen) fillMethod(c *Class, m *Method, static, abstract bool) {
 		if len(m.Mods) > 0 && r.Chance(1, 5) {
 			afterKeyword = true
 		}
+		if !afterKeyword && r.Chance(1, 4) {
+			// nullable for two reasons at once: both annotations on one method
+			m.NullAnno2 = "CheckForNull"
+			if m.NullAnno == "CheckForNull" {
+				m.NullAnno2 = "Nullable"
+			}
+			m.AnnoPos = AnnoBoth
+			at := r.Intn(len(annos) + 1)
+			annos = append(annos[:at], append([]string{"@" + m.NullAnno2}, annos[at:]...)...)
+		}
 	}
 	if afterKeyword {
 		// `public @Nullable String f()`: the other annotations lead, the null annotation follows a keyword
@@ -424,6 +468,67 @@ func (g *gen) fillMethod(c *Class, m *Method, static, abstract bool) {
 		if r.Bool() {
 			m.OwnLine = len(annos)
 		}
+	}
+}
+
+// plantCalls puts unqualified calls of methods of the same class at the start of some bodies: one call on a
+// line, the same callee two or three times on ONE line (`f(p, flag, n); f(p, flag, n);` or, for int callees,
+// `int both = f(p, flag, n) + f(p, flag, n);`), and the same callee again on another line.
+func (g *gen) plantCalls(c *Class) {
+	r := g.r
+	for _, m := range c.Methods {
+		if m.Abstract || !r.Chance(1, 2) {
+			continue
+		}
+		var callees []*Method
+		for _, t := range c.Methods {
+			if t == m || (m.Static && !t.Static) {
+				continue
+			}
+			if t.Params[0][0] != "Object" && t.Params[0][0] != m.Params[0][0] {
+				continue
+			}
+			callees = append(callees, t)
+		}
+		if len(callees) == 0 {
+			continue
+		}
+		var lines []string
+		call := func(t *Method) string {
+			args := "p, flag, n"
+			if len(t.Params) > 3 {
+				args += ", \"a\", \"b\""
+			}
+			m.Calls = append(m.Calls, PlantedCall{Callee: t.Name, BodyLine: len(lines)})
+			return t.Name + "(" + args + ")"
+		}
+		for k := r.Range(1, 3); k > 0; k-- {
+			t := callees[r.Intn(len(callees))]
+			switch r.Intn(4) {
+			case 0:
+				lines = append(lines, call(t)+";")
+			case 1:
+				if t.Ret == "int" {
+					a, b := call(t), call(t)
+					lines = append(lines, "int both"+fmt.Sprint(k)+" = "+a+" + "+b+";")
+				} else {
+					a, b := call(t), call(t)
+					lines = append(lines, a+"; "+b+";")
+				}
+				m.SameLineCalls++
+			case 2:
+				a, b, d := call(t), call(t), call(t)
+				lines = append(lines, a+"; "+b+"; "+d+";")
+				m.SameLineCalls++
+			default:
+				// same callee twice on one line and once more on the next
+				a, b := call(t), call(t)
+				lines = append(lines, a+"; "+b+";")
+				lines = append(lines, call(t)+";")
+				m.SameLineCalls++
+			}
+		}
+		m.Body = append(lines, m.Body...)
 	}
 }
 
@@ -604,7 +709,7 @@ func SelfCheck(p *Project) error {
 			return fmt.Errorf("%s: kind %s disagrees with the name", c.Name, c.Kind)
 		}
 		for _, m := range c.Methods {
-			if strings.Count(c.Text, " "+m.Name+"(") != 1 {
+			if strings.Count(c.Text, " "+m.Ret+" "+m.Name+"(") != 1 {
 				return fmt.Errorf("%s.%s is not declared exactly once", c.Name, m.Name)
 			}
 			hasStatic := false
@@ -632,6 +737,27 @@ func SelfCheck(p *Project) error {
 			hasAnno := false
 			for _, h := range m.Head {
 				hasAnno = hasAnno || h == "@Nullable" || h == "@CheckForNull"
+			}
+			nAnno := 0
+			for _, h := range m.Head {
+				if h == "@Nullable" || h == "@CheckForNull" {
+					nAnno++
+				}
+			}
+			want := 0
+			if m.NullAnno != "" {
+				want++
+			}
+			if m.NullAnno2 != "" {
+				want++
+			}
+			if nAnno != want {
+				return fmt.Errorf("%s.%s: %d null annotations in the head, %d planted", c.Name, m.Name, nAnno, want)
+			}
+			for _, pc := range m.Calls {
+				if pc.BodyLine >= len(m.Body) || !strings.Contains(m.Body[pc.BodyLine], pc.Callee+"(") {
+					return fmt.Errorf("%s.%s: planted call of %s is not on body line %d", c.Name, m.Name, pc.Callee, pc.BodyLine)
+				}
 			}
 			if hasAnno != (m.NullAnno != "") {
 				return fmt.Errorf("%s.%s: annotation flag disagrees with the head", c.Name, m.Name)
